@@ -42,6 +42,37 @@ type EngCfg struct {
 	Style     string `json:"flow_style"`
 	Chain     []int  `json:"limiter_chain,omitempty"`
 	OnRefusal string `json:"on_refusal,omitempty"` // chain: "429" | "forward"
+	// FlowFilter: the user flow's filter: "" = "<host>/*" alone; "same" = the
+	// effective filter of the quota its first limiter consults
+	FlowFilter string `json:"flow_filter,omitempty"`
+}
+
+// firstLim: the quota the user flow's first limiter consults
+func (e *EngCfg) firstLim() int {
+	if e.Style == "chain" {
+		return e.Chain[0]
+	}
+	return e.Limiter
+}
+
+func (e *EngCfg) userFilter() QFilter {
+	if e.FlowFilter == "same" && !e.foreign(e.firstLim()) {
+		return e.eff(e.firstLim())
+	}
+	return QFilter{}
+}
+
+func (e *EngCfg) userFilterYAML() string {
+	f := e.userFilter()
+	h := e.host(0)
+	if e.Style != "chain" {
+		h = e.host(e.Limiter)
+	}
+	url := h + "/*"
+	if f.Path != "" {
+		url = h + "/" + f.Path + "/*"
+	}
+	return "filter:\n" + filterBody(url, f, "")
 }
 
 func (e *EngCfg) flowYAML() string {
@@ -50,7 +81,7 @@ func (e *EngCfg) flowYAML() string {
 	}
 	lim := fmt.Sprintf("lim%d", e.Limiter)
 	var sb strings.Builder
-	fmt.Fprintf(&sb, "name: f\nfilter:\n  url: \"%s/*\"\nprocessors:\n", e.host(e.Limiter))
+	fmt.Fprintf(&sb, "name: f\n%sprocessors:\n", e.userFilterYAML())
 	fmt.Fprintf(&sb, "  %s:\n    processor: Limiter\n    parameters:\n      - key: quota_id\n        value: %s\n", lim, qid(e.Limiter))
 	gen := func(name string, status int) {
 		fmt.Fprintf(&sb, "  %s:\n    processor: GenerateResponse\n    parameters:\n      - key: status\n        value: %d\n", name, status)
@@ -113,7 +144,7 @@ func (e *EngCfg) flowYAML() string {
 
 func (e *EngCfg) chainYAML() string {
 	var sb strings.Builder
-	fmt.Fprintf(&sb, "name: f\nfilter:\n  url: \"%s/*\"\nprocessors:\n", e.host(0))
+	fmt.Fprintf(&sb, "name: f\n%sprocessors:\n", e.userFilterYAML())
 	for _, q := range e.Chain {
 		fmt.Fprintf(&sb, "  lim%d:\n    processor: Limiter\n    parameters:\n      - key: quota_id\n        value: %s\n", q, qid(q))
 	}
@@ -325,7 +356,7 @@ func (x *engExec) url() string {
 // stream with transaction id t<r> and sequence id t<seq>; ask = the request
 // carries the header that makes a "chain" flow answer it after admission. A
 // panic of the engine is reported as the call's error, the run goes on.
-func (x *engExec) txn(r, seq int, response, ask bool) (trace []Pev, early bool, errText string) {
+func (x *engExec) txn(r, seq int, response, ask bool, at *SAttr) (trace []Pev, early bool, errText string) {
 	trace = []Pev{}
 	evMu.Lock()
 	evSink = &trace
@@ -344,7 +375,7 @@ func (x *engExec) txn(r, seq int, response, ask bool) (trace []Pev, early bool, 
 		if ask {
 			hdr = map[string]string{"x-mode": "early"}
 		}
-		api := reqStream(r, seq, x.url(), hdr)
+		api := reqStreamA(r, seq, x.urlA(at), at, hdr)
 		acts := &stream_config.StreamActions{Request: &stream_config.RequestStream{}}
 		err = x.st.ExecuteFlow(api, acts)
 		for _, a := range acts.Request.Actions {
@@ -353,7 +384,7 @@ func (x *engExec) txn(r, seq int, response, ask bool) (trace []Pev, early bool, 
 			}
 		}
 	} else {
-		api := respStream(r, seq, x.url())
+		api := respStreamA(r, seq, x.urlA(at), at)
 		acts := &stream_config.StreamActions{Response: &stream_config.ResponseStream{}}
 		err = x.st.ExecuteFlow(api, acts)
 	}
